@@ -585,7 +585,7 @@ def describe(steps):
 
 
 def work_interleaved(arg):
-    backend, appends, mode = arg
+    backend, appends, mode, vary_r0 = arg
     env()
     out, stats = [], {"idx_beyond": {}, "skip_beyond": {}, "skip_at_end": {}}
     cov = {"evaluations": 0, "distinct_nontrivial": 0, "interleaved_histories": 0, "interleaved_reads": 0}
@@ -602,8 +602,8 @@ def work_interleaved(arg):
             n += 1 if a[0] == "msg" else len(a[1])
             ns.append(n)
         # read alphabets: the last read step takes every kind of read; earlier ones too when mode == 'full'
-        # r0, on the empty capture (varied for one and two append steps only)
-        alph = [[None, ["all", None, None, True], ["msg", 0]] if k <= 2 else [None]]
+        # r0, on the empty capture
+        alph = [[None, ["all", None, None, True], ["msg", 0]] if vary_r0 else [None]]
         for i, n in enumerate(ns):
             alph.append(il_reads_full(n) if (mode == "full" or i == k - 1) else il_reads_small(n))
         for reads in itertools.product(*alph):
@@ -637,21 +637,30 @@ def work_interleaved(arg):
 
 
 def interleaved_items(quick):
+    """(backend, append steps, read alphabet of the read points in between, vary r0)"""
     items = []
     for backend in ("file", "bytesio"):
-        # one and two append steps: every read at every read point
-        opts = il_append_options(3 if quick else 4, not quick)
+        # one and two append steps over {append_msg(m), append_all([m, m+1])}, 3-entry menu: every read at every
+        # read point, r0 on the empty capture varied
+        opts = il_append_options(3, False)
         for a in opts:
-            items.append((backend, [a], "full"))
+            items.append((backend, [a], "full", True))
         for a in opts:
             for b in opts:
-                items.append((backend, [a, b], "full"))
+                items.append((backend, [a, b], "full", True))
+        # thorough: two append steps over the 4-entry menu with every ordered pair for append_all
+        if not quick:
+            big = il_append_options(4, True)
+            for a in big:
+                for b in big:
+                    if not (a in opts and b in opts):
+                        items.append((backend, [a, b], "full", False))
         # three append steps: every read at the end, the short alphabet in between
-        opts3 = il_append_options(3, False)
+        opts3 = opts
         if quick:
-            opts3 = [opts3[0], opts3[1], opts3[4]]          # append_msg(Tx), append_msg(NOPE), append_all([NOPE, 8-PSK])
+            opts3 = [opts[0], opts[1], opts[4]]          # append_msg(Tx), append_msg(NOPE), append_all([NOPE, 8-PSK])
         for combo in itertools.product(opts3, repeat=3):
-            items.append((backend, [list(x) for x in combo], "small"))
+            items.append((backend, [list(x) for x in combo], "small", False))
     return items
 
 
@@ -705,13 +714,15 @@ def run(ctx):
                   "{None,1,2,n+1})} at every read point for one and two append steps and at the last read point for "
                   "three append steps (read points in between: nothing, parse_msg(0), parse_msg(n-1), parse_all(), the "
                   "short last page parse_all(n-1,2), parse_all(0,1), the page past the end parse_all(n,1)); r0 on the "
-                  "empty capture from {nothing, parse_all(), parse_msg(0)} (one and two append steps); every read is judged against the messages "
+                  "empty capture from {nothing, parse_all(), parse_msg(0)} (one and two append steps over the 3-entry "
+                  "menu); every read is judged against the messages "
                   "appended so far and a fresh reader checks the finished capture; each history runs with the file position "
                   "forced to the end before every append (failures: key part reader-state) and, when that is clean, as "
                   "plain API use (failures: key part append-position)"
                   % ("{append_msg(m), append_all([m, m+1])} over a 3-entry menu (three append steps: 3 of these options)"
-                     if ctx.quick else "{append_msg(m), append_all([m, m'])} over a 4-entry menu (three append steps: "
-                     "{append_msg(m), append_all([m, m+1])} over 3 entries)"))
+                     if ctx.quick else "{append_msg(m), append_all([m, m+1])} over a 3-entry menu for one to three append steps, "
+                     "plus {append_msg(m), append_all([m, m'])} with every ordered pair over a 4-entry menu for two append "
+                     "steps"))
     c["exhaustive"] = True
     ctx.assumptions += [
         "io.BytesIO stands for the capture file (short read at EOF, seek past EOF allowed), as in DESIGN.md",
